@@ -286,6 +286,8 @@ def build_script_model(spec):
         if a.random.random() < 0.5:
             a.mark = int(a.rng.integers(1000))
         m = a.model
+        if cellspace and a.cell is None:
+            return    # the space was full when this agent was created
         if cellspace:
             if a.random.random() < 0.7:
                 nb = a.cell.neighborhood
@@ -883,7 +885,7 @@ def run_world_case(case):
             return model.agents, "TAgents", True
         if k == "bytype":
             if not any(type(a) is KL[t[1]] for a in model.agents):
-                raise _NoSuch()
+                raise _NoSuch(f"(TByType {t[1]})")
             return model.agents_by_type[KL[t[1]]], f"(TByType {t[1]})", True
         if k == "space_agents":
             return space.agents, "TSpaceAgents", case["space_seeded"]
@@ -895,7 +897,10 @@ def run_world_case(case):
             if not ne and not any("Random number generator not specified" in str(w.message) for w in wl):
                 fail("C01/_Grid.agents/silently-unseeded", i, "the .agents of an empty legacy grid got an unseeded generator without a UserWarning")
             return r, "TLegacyAgents", ne
-        c, m, sd = ev(t[1], i)
+        try:
+            c, m, sd = ev(t[1], i)
+        except _NoSuch as e:   # keep the outcomes recorded below, wrap the rest syntactically: the model fails at the same place
+            raise _NoSuch(_wrap_term(t, e.args[0])) from None
         r, m2, sd2 = ev_step(k, t, c, m, sd, i)
         if sd and k != "new" and gflag(c) == 0 and gflag(r) != 0:
             fail(f"C01/{T_SITE[k]}/generator-not-propagated", i,
@@ -929,7 +934,7 @@ def run_world_case(case):
         if k == "group":
             g = c.groupby("key").groups
             if t[2] not in g:
-                raise _NoSuch()
+                raise _NoSuch(f"(TGroup {m} {L.z(t[2])})")
             return g[t[2]], f"(TGroup {m} {L.z(t[2])})", sd
         if k == "new":
             with warnings.catch_warnings(record=True) as wl:
@@ -948,9 +953,12 @@ def run_world_case(case):
             return space.empties, "CEmpties", case["space_seeded"]
         if k == "cnbhd":
             if not 0 <= t[1] < len(cells):
-                raise _NoSuch()
+                raise _NoSuch(f"(CNbhd {L.z(t[1])} {L.b(t[2])})")
             return cells[t[1]].get_neighborhood(1, include_center=t[2]), f"(CNbhd {t[1]} {L.b(t[2])})", case["space_seeded"]
-        c, m, sd = cev(t[1], i)
+        try:
+            c, m, sd = cev(t[1], i)
+        except _NoSuch as e:
+            raise _NoSuch(_wrap_term(t, e.args[0])) from None
         r, m2, sd2 = cev_step(k, t, c, m, sd, i)
         if sd and k != "cnew" and gflag(c) == 0 and gflag(r) != 0:
             fail(f"C01/{T_SITE[k]}/generator-not-propagated", i,
@@ -988,9 +996,9 @@ def run_world_case(case):
             if k in ("derive", "derivec"):
                 try:
                     c, m, sd = (ev if k == "derive" else cev)(op[1], i)
-                except _NoSuch:
+                except _NoSuch as e:
                     obs.append([-2])
-                    ops_m.append(("Derive " if k == "derive" else "DeriveC ") + _fallback_term(op[1], k))
+                    ops_m.append(("Derive " if k == "derive" else "DeriveC ") + e.args[0])
                 else:
                     gf = gflag(c)
                     members = [a.unique_id for a in c] if k == "derive" else [cidx[x] for x in c]
@@ -1106,9 +1114,9 @@ def run_world_case(case):
             elif k == "shuffle_do":
                 try:
                     c, m, sd = ev(op[1], i)
-                except _NoSuch:
+                except _NoSuch as e:
                     obs.append([-2])
-                    ops_m.append(f"ShuffleDo {_term_nooutcome(op[1])} []")
+                    ops_m.append(f"ShuffleDo {e.args[0]} []")
                 else:
                     before = [a.unique_id for a in c]
                     called = []
@@ -1137,9 +1145,9 @@ def run_world_case(case):
             elif k in ("rcell", "ragent"):
                 try:
                     c, m, sd = cev(op[1], i)
-                except _NoSuch:
+                except _NoSuch as e:
                     obs.append([-2])
-                    ops_m.append(("RandomCell " if k == "rcell" else "RandomAgent ") + _term_nooutcome(op[1]) + " 0")
+                    ops_m.append(("RandomCell " if k == "rcell" else "RandomAgent ") + e.args[0] + " 0")
                 else:
                     seq = [cidx[x] for x in c] if k == "rcell" else [a.unique_id for x in c for a in x._agents]
                     mst = rnd.getstate()
@@ -1241,28 +1249,10 @@ def run_world_case(case):
     return {"obs": obs, "failures": failures, "ops_for_model": {"ops": ops_m, "world": world}}
 
 
-def _fallback_term(t, k):
-    return _term_nooutcome(t)
-
-
-def _term_nooutcome(t):
-    """Gallina for a term without recorded outcomes (identity shuffles); used for no-op observations"""
+def _wrap_term(t, m):
+    """Gallina for constructor t applied to the already printed inner term m, with no outcome of its own (used
+    above a derivation step that does not exist: the model stops at the same step)"""
     k = t[0]
-    if k == "agents":
-        return "TAgents"
-    if k == "bytype":
-        return f"(TByType {t[1]})"
-    if k == "space_agents":
-        return "TSpaceAgents"
-    if k == "legacy_agents":
-        return "TLegacyAgents"
-    if k == "call":
-        return "CAll"
-    if k == "cempties":
-        return "CEmpties"
-    if k == "cnbhd":
-        return f"(CNbhd {L.z(t[1])} {L.b(t[2])})"
-    m = _term_nooutcome(t[1])
     if k == "select":
         return f"(TSelect {m} {L.z(t[2])} {L.opt(None if t[3] is None else L.z(t[3]))})"
     if k == "selectall":
@@ -1270,7 +1260,7 @@ def _term_nooutcome(t):
     if k == "copy":
         return f"(TCopy {m})"
     if k == "shuffle":
-        return f"(TSelectAll {m})"
+        return f"(TShuffle {m} [])"
     if k == "sort":
         return f"(TSort {m} {L.b(t[2])})"
     if k == "group":
